@@ -30,6 +30,8 @@ type SpecCtx struct {
 	InOld    bool
 	OldHeap  map[string]string // nil: H0 constants
 	OldEpoch bool
+	SnapEpoch   int      // State.Epoch when OldHeap was taken
+	SnapPending []string // State.pendingHavoc when OldHeap was taken
 	Self     *SV // for guard invariants
 }
 
@@ -310,8 +312,31 @@ func (e *Engine) oldHeap(s *State, c *SpecCtx, name, sortS string) string {
 			return h
 		}
 		if c.OldEpoch {
-			// untouched since the snapshot: the current value is the old value
-			return e.heapGet(s, name, sortS)
+			// not touched before the snapshot was taken
+			e.regHeap(name, sortS)
+			pend := c.SnapEpoch > 0
+			for _, pre := range c.SnapPending {
+				if strings.HasPrefix(name, pre) {
+					pend = true
+				}
+			}
+			var h string
+			if pend {
+				// its value at snapshot time is unknown (an earlier havoc covered it): a fresh constant
+				h = e.declare(s, "Hsnap!"+name, sortS)
+			} else {
+				h = "H0!" + name
+				if !s.Decl[h] {
+					s.Decl[h] = true
+					s.add("(declare-const " + h + " " + sortS + ")")
+				}
+			}
+			if _, cur := s.Heap[name]; !cur {
+				// also never touched since: the current value is that same value
+				s.Heap[name] = h
+			}
+			c.OldHeap[name] = h
+			return h
 		}
 	}
 	return e.heapOld(s, name, sortS)
@@ -549,7 +574,28 @@ func (e *Engine) evalCall(s *State, c *SpecCtx, n *ast.CallExpr) *SV {
 		mt := m.T.Underlying().(*types.Map)
 		md, _, ks := e.mapNames(mt)
 		h := e.specHeap(s, c, md, "(Array Int (Array "+ks+" Bool))")
-		return &SV{V: &Val{L: []string{app("select", h, m.V.L[0])}}, Sort: "(Array " + ks + " Bool)"}
+		return &SV{V: &Val{L: []string{app("ite", eq(m.V.L[0], "0"), "((as const (Array "+ks+" Bool)) false)", app("select", h, m.V.L[0]))}}, Sort: "(Array " + ks + " Bool)"}
+	case "cast":
+		// cast(x, "pkg.Type"): the *pkg.Type held by interface value x
+		lit := n.Args[1].(*ast.BasicLit)
+		name, _ := strconv.Unquote(lit.Value)
+		t := e.structTypeByKey(name)
+		if t == nil {
+			e.unsupportedf("cast: unknown type %s", name)
+		}
+		return &SV{V: &Val{L: []string{app("iref", arg(0).V.L[0])}}, T: types.NewPointer(t), Sort: "Int"}
+	case "forallkey":
+		// forallkey(k, body): for every string key k
+		id := n.Args[0].(*ast.Ident).Name
+		q := "q!" + id
+		c2 := *c
+		c2.Bound = map[string]*SV{}
+		for k, v := range c.Bound {
+			c2.Bound[k] = v
+		}
+		c2.Bound[id] = &SV{V: &Val{L: []string{q}}, Sort: "Str", T: types.Typ[types.String]}
+		body := e.evalBool(s, &c2, n.Args[1])
+		return svBool(fmt.Sprintf("(forall ((%s Str)) %s)", q, body))
 	case "vals":
 		m := arg(0)
 		mt := m.T.Underlying().(*types.Map)
@@ -696,7 +742,10 @@ func (e *Engine) evalCall(s *State, c *SpecCtx, n *ast.CallExpr) *SV {
 		m := arg(0)
 		var best *iterState
 		for _, it := range s.Iters {
-			if it.MT != nil && it.Map.L[0] == m.V.L[0] {
+			if it.MT == nil {
+				continue
+			}
+			if it.Map.L[0] == m.V.L[0] || (it.Map.Src != "" && it.Map.Src == m.V.Src && it.Map.SrcBase == m.V.SrcBase) {
 				best = it
 			}
 		}
@@ -741,12 +790,16 @@ func (e *Engine) evalCall(s *State, c *SpecCtx, n *ast.CallExpr) *SV {
 	if strings.HasPrefix(fname, "p_") || strings.HasPrefix(fname, "is") {
 		res = "Bool"
 	}
+	if sf, ok := e.C.SpecFns[fname]; ok {
+		res = sf.Res
+		sorts = sf.Args
+	}
 	sym := "sf!" + fname
 	e.globalDecl(fmt.Sprintf("(declare-fun %s (%s) %s)", sym, strings.Join(sorts, " "), res))
 	if len(args) == 0 {
 		return &SV{V: &Val{L: []string{sym}}, Sort: res}
 	}
-	return &SV{V: &Val{L: []string{app(sym, args...)}}, Sort: res, T: map[string]types.Type{"Int": types.Typ[types.Int], "Bool": types.Typ[types.Bool]}[res]}
+	return &SV{V: &Val{L: []string{app(sym, args...)}}, Sort: res, T: map[string]types.Type{"Int": types.Typ[types.Int], "Bool": types.Typ[types.Bool], "Str": types.Typ[types.String]}[res]}
 }
 
 func (e *Engine) typeTagByName(name string) string {
@@ -766,10 +819,19 @@ type clauseNotApplicable struct{ name string }
 // tryEvalBool evaluates a clause; ok is false when the clause mentions a local that is not live here.
 func (e *Engine) tryEvalBool(s *State, c *SpecCtx, x ast.Expr) (t string, ok bool) {
 	nl := len(s.Lines)
+	heap0 := make(map[string]string, len(s.Heap))
+	for k, v := range s.Heap {
+		heap0[k] = v
+	}
+	decl0 := make(map[string]bool, len(s.Decl))
+	for k, v := range s.Decl {
+		decl0[k] = v
+	}
 	defer func() {
 		if r := recover(); r != nil {
 			if _, isNA := r.(clauseNotApplicable); isNA {
 				s.Lines = s.Lines[:nl]
+				s.Heap, s.Decl = heap0, decl0
 				t, ok = "true", false
 				return
 			}
